@@ -92,6 +92,8 @@ class Gateway:
             sensorid = self._get_next_id()
         if sensorid is not None and sensorid not in self.sensors:
             self.sensors[sensorid] = Sensor(sensorid)
+            if self.tasks is not None and self.tasks.persistence:
+                self.tasks.persistence.need_save = True
         return sensorid if sensorid in self.sensors else None
 
     def create_message_to_set_sensor_value(
